@@ -463,3 +463,33 @@ Qed.
 
 Lemma anc_inv : forall st a x, anc st a x -> a = x \/ exists q, oparent (st x) = Some q /\ anc st a q.
 Proof. intros st a x H. destruct H as [|x q Hq Ha]; [left; reflexivity | right; eauto]. Qed.
+
+(* more about dicts, walks and fuel, used by the reparent proof *)
+Lemma in_adel_inv {K V} (eqb : K -> K -> bool) (eqb_eq : forall a b, eqb a b = true <-> a = b) :
+  forall k (l : list (K * V)) k' v', In (k', v') (adel eqb k l) -> k' <> k /\ In (k', v') l.
+Proof.
+  intros k. induction l as [|[k2 v2] t IH]; cbn; intros k' v' H; [destruct H|].
+  destruct (eqb k2 k) eqn:E.
+  - destruct (IH _ _ H) as [H1 H2]. split; [exact H1 | right; exact H2].
+  - destruct H as [H|H].
+    + inversion H; subst. split; [|left; reflexivity]. intros ->. rewrite (proj2 (eqb_eq k k) eq_refl) in E. discriminate.
+    + destruct (IH _ _ H) as [H1 H2]. split; [exact H1 | right; exact H2].
+Qed.
+Definition cget_cdel_ne := @aget_adel_ne name id name_eqb name_eqb_eq.
+
+Lemma oconcat_mono {X Y} (f g : X -> option (list Y)) : forall l r,
+    (forall x rx, In x l -> f x = Some rx -> g x = Some rx) -> oconcat f l = Some r -> oconcat g l = Some r.
+Proof.
+  induction l as [|x t IH]; cbn; intros r H Hr; [exact Hr|].
+  destruct (f x) as [a|] eqn:E; [|discriminate]. destruct (oconcat f t) as [b|] eqn:E2; [|discriminate].
+  rewrite (H x a (or_introl eq_refl) E). rewrite (IH b); [exact Hr | | reflexivity].
+  intros y ry Hy. apply H. right. exact Hy.
+Qed.
+Lemma subtree_f_mono : forall F st a T, subtree_f F st a = Some T -> forall F', (F <= F')%nat -> subtree_f F' st a = Some T.
+Proof.
+  induction F as [|F IH]; intros st a T H F' Hle; [discriminate|].
+  destruct F' as [|F']; [lia|]. cbn in *.
+  destruct (oconcat (subtree_f F st) (map snd (ocont (st a)))) as [l|] eqn:E; [|discriminate].
+  rewrite (oconcat_mono (subtree_f F st) (subtree_f F' st) _ l); [exact H | | exact E].
+  intros x rx _ Hx. apply (IH _ _ _ Hx). lia.
+Qed.
